@@ -39,7 +39,9 @@ BOUNDED_ONLY = ("bounded stand-in only so far (labelled bounded, never counted a
 reg("C03", "proof",
     "winner-takes-all: argmin_split / argmax_split proved for every image size against 'disparity of the first extremum' "
     "(block loops over np.array_split chunks, invariants on y_begin/x_begin), np.argmin/np.argmax/array_split as assumed "
-    "contracts; to_disp (NaN substitution/restoration, invalid pixels, frame) by the bounded stand-in until its contract is in.",
+    "contracts; to_disp itself proved over symbolic datasets (vectorised numpy layer): NaN costs substituted by +-inf and "
+    "restored, a pixel with a computable cost gets the sampled disparity of the first best non-NaN cost, an all-NaN pixel gets "
+    "exactly invalid_disparity, cost volume values unchanged on return, validity mask / confidence / interval carried over.",
     trusted=["assumed contract: np.argmin/np.argmax return the first index of the extremum of a NaN-free axis",
              "assumed contract: np.array_split(a, np.arange(c, n, c), axis) yields the views a[j*c : min((j+1)*c, n)]"])
 reg("C14", "proof",
